@@ -6,7 +6,7 @@ import os
 import struct
 
 from vf.core import SECTOR, Model, as_handle, rng_for
-from vf.diskcheck import compare_reads, continuation_reads, crossing_count, gen_requests, mismatch_detail
+from vf.diskcheck import compare_reads, continuation_reads, fault_retry_reads, crossing_count, gen_requests, mismatch_detail
 from vf.monitors import call
 from vf.writers import vhdx as w
 
@@ -211,6 +211,7 @@ def run(case: dict, ctx) -> dict:
                 a = max(0, e - rng.randrange(1, 70000))
                 reqs.append((a, rng.randrange(1, 140000)))
     continuation_reads(v, model, reqs, rng, res, MECH)
+    fault_retry_reads(v, model, reqs, rng, res, MECH)
     compare_reads(v, model, reqs, res, MECH, byte_cap=(40 if quick else 120) << 20)
     # sector interface at arbitrary sector alignment
     total = meta["size"] // ss
